@@ -15,8 +15,6 @@ func c19Queries(W, L int) {
 	probeA := rt.Bytes("probeA", rt.Choice("la", L+1))
 	patB := rt.Bytes("patB", rt.Choice("lb", L+1))
 	blank := rt.Byte("blank")
-	soloIdx, soloOk := d.Lookup(probeA)
-	_, soloIds := d.Search(NewPatternSearcher(append([]byte{}, patB...), blank))
 	rt.ActorBegin(1)
 	idx, ok := d.Lookup(probeA)
 	_, ids1 := d.Search(NewAnagramSearcher(append([]byte{}, probeA...), blank))
@@ -30,6 +28,8 @@ func c19Queries(W, L int) {
 	d.GobEncode()
 	rt.ActorEnd()
 	rt.FootprintCheck()
+	soloIdx, soloOk := d.Lookup(probeA)
+	_, soloIds := d.Search(NewPatternSearcher(append([]byte{}, patB...), blank))
 	_ = ids1
 	rt.Check(ok == soloOk && (!ok || idx == soloIdx), "Lookup differs from a solo run")
 	rt.Check(len(ids) == len(soloIds) && nw == len(words), "Search differs from a solo run")
